@@ -431,6 +431,13 @@ def shrink(case, still_fails, rounds=12, width=150, keep=NO_SHRINK_KEYS, valid=N
 
 # ----------------------------------------------------------------------------- the check driver
 
+def _safe(f):
+    try:
+        return f()
+    except Exception:
+        return None
+
+
 def load_known():
     p = os.path.join(ROOT, 'known_findings.json')
     if os.path.exists(p):
@@ -478,6 +485,8 @@ def evaluate_cases(mod, cases, tag='cases'):
         mv = m
         if m is not None and hasattr(mod, 'split_model'):
             wf, mv = mod.split_model(c, m)
+        elif m is None and hasattr(mod, 'split_model'):
+            wf = False      # domain membership is decided by the model; unknown when the evaluation failed
         recs.append({'case': c, 'impl': i, 'model': mv, 'wf': wf, 'evaluated': m is not None})
     return recs, errs
 
@@ -540,12 +549,14 @@ def main_check(prop_id, tier, seed, replay=None):
 
     # thorough tier: independent re-check of the compiled closure with coqchk
     coqchk_out = None
-    if tier == 'thorough' and bok and not os.environ.get('SV_NO_COQCHK'):
+    if tier == 'thorough' and bok and not os.environ.get('SV_NO_COQCHK') and getattr(mod, 'COQCHK', True):
         rc, cout, cw = sh('timeout 1500 coqchk -silent -o -R %s SV SV.props.%s_Props' % (COQ, prop_id), timeout=1530)
         coqchk_out = cout[-2500:]
-        if rc != 0:
+        if rc not in (0, 124):
             broken.append('coqchk failed: ' + cout[-800:])
-        cov['coqchk'] = {'rc': rc, 'wall_s': round(cw, 1), 'output_tail': coqchk_out}
+        cov['coqchk'] = {'rc': rc, 'wall_s': round(cw, 1), 'completed': rc == 0, 'output_tail': coqchk_out}
+    elif tier == 'thorough':
+        cov['coqchk'] = {'completed': False, 'reason': getattr(mod, 'COQCHK_NOTE', 'skipped (SV_NO_COQCHK or build red)')}
 
     # 4. cases
     rng = random.Random(seed)
@@ -595,6 +606,7 @@ def main_check(prop_id, tier, seed, replay=None):
     # extra relational checks (no model needed)
     if hasattr(mod, 'extra_checks'):
         for v in mod.extra_checks(rng, tier, cov):
+            v = dict({'impl': None, 'model': None, 'wf': True, 'evaluated': False, 'noshrink': True, 'relational': True}, **v)
             spec_fail.append(v)
 
     def is_known(r):
@@ -674,9 +686,9 @@ def main_check(prop_id, tier, seed, replay=None):
         rs, _ = evaluate_cases(mod, [small], tag='final') if (model_built and not r.get('noshrink')) else ([r], [])
         fr = rs[0]
         payload = {'property': prop_id, 'kind': 'failing-input', 'case': fr['case'], 'observed': fr['impl'],
-                   'expected_model': fr['model'], 'why': ('property oracle: ' + str(mod.spec(fr['case'], fr['impl']))) if hasattr(mod, 'spec') and mod.spec(fr['case'], fr['impl']) else why, 'original_case': r['case'],
+                   'expected_model': fr.get('model'), 'why': why if (fr.get('relational') or not hasattr(mod, 'spec') or not mod.spec(fr['case'], fr['impl'])) else 'property oracle: ' + str(mod.spec(fr['case'], fr['impl'])), 'original_case': r['case'],
                    'broken': broken + ['correspondence %s' % prop_id], 'seed': seed, 'tier': tier,
-                   'python': mod.python_snippet(fr['case']) if hasattr(mod, 'python_snippet') else None,
+                   'python': _safe(lambda: mod.python_snippet(fr['case'])) if hasattr(mod, 'python_snippet') else None,
                    'other_failing_cases': len(real) - 1}
         p = write_replay(prop_id, payload)
         print('VIOLATION property=%s replay=%s' % (prop_id, p))
